@@ -2,7 +2,7 @@
 chosen target type, so the type of each binder and function is known by construction.  Emits the Gleam
 text of 1-2 modules, the binders (name, module, expected type), the functions (name, expected scheme)
 and the program in the s-expression encoding of the Lean checker (Glas/Model/TySpec.lean)."""
-import random
+import random, re
 
 INT, FLOAT, STRING, BOOL, NIL = ("int",), ("float",), ("string",), ("bool",), ("nil",)
 def L(t): return ("list", t)
@@ -580,6 +580,8 @@ class Gen:
             f.param_ids = ids
             f.text = text
             f.sexp = body_sx_fn(ids)
+            f.ann = [(pn + ":") in text for (pn, _) in params]
+            f.ret_src = ") ->" in text.split("{")[0]
             hs.append(f)
         a, b, c = G("a"), G("b"), G("c")
         h("identity", [("hx1", a)], a, None, "pub fn identity(hx1: a) -> a {\n  hx1\n}", lambda i: f"(v {i[0]})")
@@ -685,14 +687,14 @@ class Gen:
             texts[m] = head + "\n" + "\n\n".join(items) + "\n"
         return texts
 
-    def program_sexp(self):
+    def program_sexp(self, all_ann=False):
         adts = []
         for name, (params, variants) in ADTS.items():
             vs = " ".join("(variant " + vn + "".join(f" ({l if l else '_'} {sx(t)})" for (l, t) in fields) + ")" for (vn, fields) in variants)
             adts.append(f"(adt {name} (" + " ".join(params) + f") {vs})")
         fns = []
         for f in self.fns:
-            mono = not f.poly
+            mono = all_ann or not f.poly
             anns = " ".join((sx(p[1]) if (mono and f.ann and f.ann[j]) else "_") for j, p in enumerate(f.params))
             ret = sx(f.ret) if (mono and getattr(f, "ret_src", False)) else "_"
             fns.append(f"(fn {f.name} (" + " ".join(l if l else "_" for l in f.labels) + ") (" + " ".join(str(i) for i in f.param_ids) + f") ({anns}) {ret} {f.sexp})")
@@ -700,6 +702,33 @@ class Gen:
 
     def expected_assignment(self):
         return ({f.name: f.ty() for f in self.fns}, {b[0]: b[3] for b in self.binders})
+
+
+def groups_sexp(g):
+    """strongly connected components of the call graph (references to top-level functions), callees first"""
+    names = [f.name for f in g.fns]
+    edges = {f.name: sorted(set(re.findall(r"\(fr (\w+)\)", f.sexp))) for f in g.fns}
+    index, low, on, stack, out, counter = {}, {}, set(), [], [], [0]
+    import sys
+    sys.setrecursionlimit(10000)
+    def strong(v):
+        index[v] = low[v] = counter[0]; counter[0] += 1
+        stack.append(v); on.add(v)
+        for w in edges.get(v, []):
+            if w not in index:
+                strong(w); low[v] = min(low[v], low[w])
+            elif w in on:
+                low[v] = min(low[v], index[w])
+        if low[v] == index[v]:
+            comp = []
+            while True:
+                w = stack.pop(); on.discard(w); comp.append(w)
+                if w == v: break
+            out.append(comp)
+    for n in names:
+        if n not in index:
+            strong(n)
+    return " ".join("(g " + " ".join(c) + ")" for c in out)      # Tarjan emits callees first
 
 
 def assignment_sexp(fn_tys, locals_):
